@@ -131,6 +131,8 @@ class Check:
             last = out
             if rc == 2:
                 raise HarnessError("replay harness error: " + out[-1500:])
+            if rc == 0 and "REPLAY-SKIP" in out:
+                raise HarnessError("the replay did not run the recorded case (no matching operation/type/target): " + out[-500:])
             if rc != 0:
                 fails += 1
         return fails == 3, fails, last
@@ -175,6 +177,10 @@ class Check:
                     done += 1
                 else:
                     self.flaky.append({"case": rec, "replay_failures": fails})
+                    if fails == 0:
+                        # failed inside the worker, passes deterministically when replayed from its record: the record does not
+                        # describe the case (a harness defect), not a flaky run.  Never a silent pass.
+                        self.unreplayable.append((rec, "fails in the worker, passes 3/3 when replayed from its record"))
 
     def replay_saved(self, driver, extra=()):
         """regression tier: every file under replay/<prop>/ must pass"""
